@@ -255,7 +255,7 @@ def main(tier):
         agg["sigs"].update(ref_sigs)
         return {
             "distinct_nontrivial": len(ref_sigs),
-            "rule": f"corpus = {n_chunks} chunks x {CHUNK} generated calls (17 families incl. grouped / unnamed index axes and tensor factories, 20% corrupted - a third of those twice, incl. fractional / negative sizes - 15% graph=True); each chunk is executed by a reference worker "
+            "rule": f"corpus = {n_chunks} chunks x {CHUNK} generated calls ({len(set(workload.FAMILIES))} families incl. runs of unsized axes inside a composed axis, nested compositions, grouped / unnamed index axes and tensor factories, 20% corrupted - a third of those twice, incl. fractional / negative sizes - 15% graph=True); each chunk is executed by a reference worker "
                     f"(PYTHONHASHSEED=0) and by {len(vs)} variants = (PYTHONHASHSEED, EINX_CACHE_SIZE, uuid4 stream, allocation noise, execution order, 1-3 repetitions). evaluations = "
                     "chunk executions under a variant. distinct_nontrivial = distinct calls (op, description, shapes, keywords) whose reference execution drew at least one uuid4 "
                     "or whose description has at least two axis names (a set of >= 2 names can be iterated)",
